@@ -18,21 +18,30 @@ import (
 	sp "github.com/pbenner/autodiff/special"
 )
 
+// PredTag: a comparison of the Go source evaluated on the path of this anchor's arguments
+type PredTag struct {
+	Key  string `json:"k"`
+	Adj  bool   `json:"adj"` // the arguments sit on the boundary (both operands within 4 ulp / one grid step)
+	True bool   `json:"t"`
+}
+
 type Anchor struct {
-	ID     int    `json:"id"`
-	Fam    string `json:"fam"`
-	Label  string `json:"label"` // algorithm branch the arguments select (by reading the code)
-	Fn     string `json:"fn"`
-	H      int    `json:"h"` // 2a / 2v / 2x (half-integer parameter), family specific
-	K      int    `json:"k"`
-	X      string `json:"x"` // hex
-	X2     string `json:"x2"`
-	Obs    string `json:"obs"`
-	Ref    string `json:"ref"` // float64 evaluation of the closed form (diagnostic / hunt only)
-	Tol    string `json:"tol"`
-	Desc   string `json:"desc"`
-	Skip   string `json:"skip,omitempty"`
-	NonFin bool   `json:"nonfinite,omitempty"`
+	ID     int       `json:"id"`
+	Fam    string    `json:"fam"`
+	Label  string    `json:"label"` // algorithm branch the arguments select (by reading the code)
+	Fn     string    `json:"fn"`
+	H      int       `json:"h"` // 2a / 2v / 2x (half-integer parameter), family specific
+	K      int       `json:"k"`
+	X      string    `json:"x"` // hex
+	X2     string    `json:"x2"`
+	Obs    string    `json:"obs"`
+	Ref    string    `json:"ref"` // float64 evaluation of the closed form (diagnostic / hunt only)
+	Tol    string    `json:"tol"`
+	Desc   string    `json:"desc"`
+	Skip   string    `json:"skip,omitempty"`
+	NonFin bool      `json:"nonfinite,omitempty"`
+	Bnd    bool      `json:"bnd,omitempty"` // round-2 boundary / large-order anchor (always in the quick tier)
+	Preds  []PredTag `json:"preds,omitempty"`
 	goal   string
 	tac    string
 	x      float64
@@ -291,6 +300,9 @@ func (b *builder) add(a *Anchor) {
 	a.X, a.Obs, a.Ref, a.Tol = fhex(a.x), fhex(a.obs), fs(a.ref), fs(a.tol)
 	if !finite(a.obs) {
 		a.NonFin = true
+	}
+	for _, p := range predsOf(a) {
+		a.Preds = append(a.Preds, PredTag{p.Key, p.adjacent(), p.True})
 	}
 	b.as = append(b.as, a)
 }
@@ -857,13 +869,14 @@ func buildAnchors(o Opts) []*Anchor {
 	b.logerfc()
 	b.logarith(rng)
 	b.mgamma()
+	b.round2()
 	return b.as
 }
 
 const anchorHeader = `From Coq Require Import Reals ZArith QArith List.
 From Coquelicot Require Import Coquelicot.
 From Interval Require Import Tactic.
-From ADV Require Import Base.Num C13.Model C13.Spec C13.Anchors.
+From ADV Require Import Base.Num C13.Model C13.Spec C13.Spec2 C13.Anchors C13.Anchors2.
 Open Scope R_scope.
 `
 
@@ -888,15 +901,13 @@ func writeAnchors(o Opts, as []*Anchor) {
 	if per > 40 {
 		per = 40
 	}
-	nsh := 0
-	for s := 0; s < len(goals); s += per {
-		e := s + per
-		if e > len(goals) {
-			e = len(goals)
-		}
+	nsh := (len(goals) + per - 1) / per
+	// round-robin: expensive anchors of one family are spread over the shards
+	for k := 0; k < nsh; k++ {
 		var sb strings.Builder
 		sb.WriteString(anchorHeader)
-		for _, a := range goals[s:e] {
+		for j := k; j < len(goals); j += nsh {
+			a := goals[j]
 			tac := a.tac
 			if t := os.Getenv("C13_TAC_TIMEOUT"); t != "" {
 				tac = "timeout " + t + " (" + tac + ")"
@@ -904,10 +915,9 @@ func writeAnchors(o Opts, as []*Anchor) {
 			fmt.Fprintf(&sb, "(* %s  [%s]  ref %v *)\nGoal True. Time tryif (assert (H : %s) by (%s)) then idtac \"ANCHOR-OK %d\" else idtac \"ANCHOR-FAIL %d\". exact I. Qed.\n",
 				a.Desc, a.Label, a.ref, a.goal, tac, a.ID, a.ID)
 		}
-		if err := os.WriteFile(filepath.Join(o.Out, fmt.Sprintf("anchors_%d.v", nsh)), []byte(sb.String()), 0644); err != nil {
+		if err := os.WriteFile(filepath.Join(o.Out, fmt.Sprintf("anchors_%d.v", k)), []byte(sb.String()), 0644); err != nil {
 			Die("write: %v", err)
 		}
-		nsh++
 	}
 	f, err := os.Create(filepath.Join(o.Out, "anchors.jsonl"))
 	if err != nil {
